@@ -72,10 +72,10 @@ claim('C18', 'proof', 'Coq theorems (expression building denotes the expression;
       'Tie: expression / lambda / keyword forms / str(root) / str(o) round trips compared pairwise and with the model, printed token list vs model, malformed stream incl. the statement-shaped corpus (fix F11).',
       'Python\'s ast module is trusted to produce the AST shapes of bexp.')
 claim('C07', 'proof', 'Coq theorems on a heap model (mutable label cells; frame + refinement to the pure model by lock-step induction; induction over call histories) + history-level differential test with deep snapshots',
-      'C07_call (frame and refinement), _caller_unchanged, _others_unchanged, _depends_on_arguments_only, _history (any sequence of the six entry points over any pool: every result is the pure model on the initial heap and all structures are unchanged), '
+      'C07_call (frame and refinement), _caller_unchanged, _others_unchanged, _depends_on_arguments_only, _history (any sequence of the six entry points over any pool: every result is the pure model on the initial heap and all structures are unchanged), _session (calls interleaved with the CALLER writing to the label sets it holds: every call answers for the labelling the caller has made so far and leaves no trace), '
       'and non-vacuity: _noclone_refuted, _shallow_clone_refuted, _noclone_history_refuted. The heap model is tied to the pure models by theorem; the pure models to the code by the check: random histories of modelcheck calls '
       '(3 logics x object / cast object / text x F in {None, [], [...]}) over a pool of structures and formulas, snapshots of every structure (contents and identity of every label/successor set) and formula object after every step, '
-      'every result compared with the model for that call in isolation; history dependence is shrunk to a minimal prelude.',
+      'every result compared with the model for that call in isolation; caller-side relabel steps (labels(s).add/discard, labelling_function(), replace_labelling_function), explicit parser= arguments and identity-hashed state objects; history dependence is shrunk to a minimal prelude.',
       'The heap model (Model/Heap.v) is a transcription of the clone-then-label discipline, not generated from the source.')
 claim('C19', 'proof', 'Coq theorems (totality / duplicate-freeness / subset for all six entry points; independence of later calls on the heap model) + monitored execution on heterogeneous Python values',
       'C19_ctl, _ltl, _ctls, _ctl_fair, _ltl_fair, _ctls_fair (Ok, NoDup, subset of the states, for every F), _later_calls_unaffected. PARTIAL by nature: state/label value types, the set type and identity of the returned object are runtime facts: '
